@@ -66,9 +66,15 @@ where
 
     fn split_iter_at(&self, cutpoints: impl IntoIterator<Item = usize>) -> Self::IntoIterator<'_> {
         let cutpoints: Vec<usize> = cutpoints.into_iter().collect();
+        // The operands may have fewer nodes than the union
+        let (n0, n1) = (self.0.num_nodes(), self.1.num_nodes());
         SplitIter(
-            self.0.split_iter_at(cutpoints.iter().copied()).into_iter(),
-            self.1.split_iter_at(cutpoints).into_iter(),
+            self.0
+                .split_iter_at(cutpoints.iter().map(move |&c| c.min(n0)))
+                .into_iter(),
+            self.1
+                .split_iter_at(cutpoints.into_iter().map(move |c| c.min(n1)))
+                .into_iter(),
         )
     }
 }
